@@ -233,7 +233,7 @@ def work(args):
     shutil.rmtree(scratch, ignore_errors=True)
     shutil.copytree(REPO, scratch, ignore=shutil.ignore_patterns(".git", "__pycache__", ".pytest_cache", "*.egg-info"))
     env = dict(os.environ, PYTHONPATH=f"{scratch}/src", TQDM_DISABLE="1", PYTHONHASHSEED="0",
-               PYTHONDONTWRITEBYTECODE="1")
+               PYTHONDONTWRITEBYTECODE="1", VERIF_MAX_JVMS="5", VERIF_MAX_WORKERS="6")
     env.pop("SUPERREC2_VERIF", None)
     try:
         for rel, blob, m in jobs_list:
